@@ -895,7 +895,11 @@ pub fn drive_pcmp_self<X: PartialOrd>(case: &str, n: usize, mk: &dyn Fn(usize, u
         begin();
         let r = a.partial_cmp(&a);
         let e = take();
-        line(case, "pcmpself", i, i as isize, r.map(ord_s).unwrap_or("N"), &e);
+        begin();
+        #[allow(clippy::eq_op)]
+        let ops = format!("{}{}{}{}", (a < a) as u8, (a <= a) as u8, (a > a) as u8, (a >= a) as u8);
+        let _ = take();
+        line(case, "pcmpself", i, i as isize, &format!("{}\t{}", r.map(ord_s).unwrap_or("N"), ops), &e);
     }
 }
 
@@ -923,7 +927,11 @@ pub fn drive_pcmp<X: PartialOrd>(case: &str, n: usize, mk: &dyn Fn(usize, u8) ->
             begin();
             let r = a.partial_cmp(&b);
             let e = take();
-            line(case, "pcmp", i, j as isize, r.map(ord_s).unwrap_or("N"), &e);
+            // the four operators, as the user sees the ordering (their own events are not of interest)
+            begin();
+            let ops = format!("{}{}{}{}", (a < b) as u8, (a <= b) as u8, (a > b) as u8, (a >= b) as u8);
+            let _ = take();
+            line(case, "pcmp", i, j as isize, &format!("{}\t{}", r.map(ord_s).unwrap_or("N"), ops), &e);
         }
     }
 }
